@@ -156,6 +156,11 @@ def analyse_loop(facts, R, path, module):
             if retry_calls and all(b.dominates(err_t[0], rc) for rc in retry_calls):
                 A = (i, vm, e[1])
                 break
+            if retry_calls and getattr(b, "changed", False) and all(rc in b.reachable((err_t[0],), avoid=[N]) and rc not in b.reachable((vm["Ok"],), avoid=[N]) for rc in retry_calls):
+                # (a second, threaded way into the error handling - `connect().and_then(attempt)` failing at the connect - means no single
+                # Err edge dominates the classification; it is still reached from this Err edge and never from the Ok edge)
+                A = (i, vm, e[1])
+                break
     if A is None:
         R.bad("bounded-loop", fn, "attempt-outcome", "cannot find the match on the attempt's Result inside the retry loop", b.span)
         return
@@ -419,7 +424,28 @@ def abandoned_loop_rule(facts, R):
     R.note("retry-loop futures handed to a racing combinator: %d" % n)
 
 
+def derived_loops(facts):
+    """Retry loops the table does not list: any other function of the fleet modules that (re)connects inside a cycle
+    (`ensure_connected` on a CFG cycle) is a retry loop of its own - a generic `call_with(op)`, a typed sibling - and owes the same
+    bound, classification, invalidation and result discipline."""
+    from analysis.flow import in_cycle
+    out = []
+    listed = {p for p, _ in LOOPS}
+    for p_, b_ in sorted(facts.bodies.items()):
+        mod = p_.split("::")[0]
+        if mod not in ("fleet", "async_fleet") or p_ in listed or "::tests::" in p_:
+            continue
+        if any(t_["callee"]["name"] == "ensure_connected" and in_cycle(b_, i_) for i_, t_ in b_.calls()):
+            out.append((p_, mod))
+    return out
+
+
 def run(facts, R):
+    # (retry loops outside the table are only listed: analyse_loop reads the four listed loops' result shape - a bare RemoteResult with
+    # `last_error` - and would have to be generalised over `Result<RemoteResult<R>, _>`-returning generic loops before it can judge them;
+    # see DESIGN 10.6, round 5)
+    for p_, _ in derived_loops(facts):
+        R.note("retry loop outside the table, NOT judged by the loop rules: " + p_)
     for path, module in LOOPS:
         analyse_loop(facts, R, path, module)
     abandoned_loop_rule(facts, R)
